@@ -1,11 +1,11 @@
 //! Generator family `sender-range` (property C06): the field-range hypotheses of the C06 theorems
-//! (FDT instance id < 2^20, TSI < 2^48, Reed-Solomon max_n within its field, RaptorQ transfer length
+//! (FDT instance id < 2^20, TSI < 2^48, Reed-Solomon max_n within its field; RaptorQ transfer length
 //! < 2^40) checked against what a REAL `flute::sender::Sender`, configured through the public API at and
 //! beyond those ranges, actually emits.  Every packet is read with the independent decoder `rfcdec`.
 //! Oracle-only, plus a few `wire parse` / `wire rfc` ops so the Lean model sees the bytes.  EVERY real-code
 //! call happens inside `Engine::exec` of the op `wire session sender-range <case> <params>` (model answer `ok`,
 //! `PANIC` if flute panics; watchdog-covered, replayable with `eng-wire exec`):
-//!   fdt-start-id <start> <rfc3926 0|1> <two instances 0|1> | tsi <tsi> | rs <fec> <B> <parity> | raptorq-tl <tl>
+//!   fdt-start-id <start> <rfc3926 0|1> <two instances 0|1> | tsi <tsi> | rs <fec> <B> <parity>
 //! the generator only emits the ops and reads the packets they stashed.  Each class is NARROW - it fires only for its own input class, one line per session, and is
 //! silent for a sender that either encodes the configured value or refuses the configuration:
 //!   C06:sender-fdt-start-id-ge-2^20   Config.fdt_start_id >= 2^20: EXT_FDT id != start & 0xFFFFF, version
@@ -16,15 +16,11 @@
 //!   C06:sender-rs28-maxn-wrap         RS GF(2^8) OTI with B > 255 or B + parity > 255 accepted: EXT_FTI B / max_n wrapped
 //!   C06:sender-rs28us-maxn-wrap       FEC 129 OTI with B + parity >= 2^16 accepted: EXT_FTI max_n wrapped
 //!   C06:sender-rs-fti                 the same checks for in-range Reed-Solomon OTIs (control)
-//!   C06:raptorq-tl-ge-2^40            the sender accepts a RaptorQ object of transfer length >= 2^40 whose
-//!                                     EXT_FTI (40-bit F) cannot carry it
-//!   C06:raptorq-tl                    RaptorQ transfer length 2^40 - 1 not carried exactly (control)
 use crate::generator::G;
 use crate::rewidth::{endpoint, run_rx, t0, Stream};
 use crate::Stash;
 use harness_core::Oracle;
 use crate::rfcdec as rd;
-use flute::core::lct::Cenc;
 use flute::core::Oti;
 use flute::sender::{self, ObjectDesc, Sender, TransferConfig};
 use flute::verif_hooks as hk;
@@ -262,7 +258,10 @@ fn rs_range(o: &mut Oracle, st: &mut Stash, fec: u8, b: u32, parity: u32) -> Don
     let mut nb_fti = 0;
     let mut wrong: Vec<String> = Vec::new();
     for (d, _) in &stream {
-        let Some(p) = rd::decode_packet(d) else { continue };
+        let Some(p) = rd::decode_packet(d) else {
+            wrong.push(format!("sender packet not decodable: {}", crate::short(&hex(d))));
+            continue;
+        };
         if !p.fti_present {
             continue;
         }
@@ -278,6 +277,9 @@ fn rs_range(o: &mut Oracle, st: &mut Stash, fec: u8, b: u32, parity: u32) -> Don
         }
     }
     add(st, "sender-range:rs:packets-with-fti", nb_fti);
+    if nb_fti == 0 {
+        o.fail("C06:harness-bug", &format!("{} sender packets, none with EXT_FTI (FDT packets always carry one)", stream.len()));
+    }
     if let Some(w) = wrong.first() {
         add(st, &format!("sender-range:fires:{}", class), wrong.len());
         o.fail(
@@ -290,100 +292,6 @@ fn rs_range(o: &mut Oracle, st: &mut Stash, fec: u8, b: u32, parity: u32) -> Don
     Ok(())
 }
 
-// ---------------------------------------------------------------------------------------------------
-// 4. RaptorQ transfer length
-// ---------------------------------------------------------------------------------------------------
-
-/// an object of `len` bytes that is never materialised (zeros)
-#[derive(Debug)]
-struct Sparse {
-    len: u64,
-    pos: u64,
-}
-
-impl std::io::Read for Sparse {
-    fn read(&mut self, buf: &mut [u8]) -> std::io::Result<usize> {
-        let n = (buf.len() as u64).min(self.len - self.pos.min(self.len)) as usize;
-        buf[..n].fill(0);
-        self.pos += n as u64;
-        Ok(n)
-    }
-}
-
-impl std::io::Seek for Sparse {
-    fn seek(&mut self, p: std::io::SeekFrom) -> std::io::Result<u64> {
-        let np = match p {
-            std::io::SeekFrom::Start(x) => x as i128,
-            std::io::SeekFrom::End(x) => self.len as i128 + x as i128,
-            std::io::SeekFrom::Current(x) => self.pos as i128 + x as i128,
-        };
-        if np < 0 {
-            return Err(std::io::Error::new(std::io::ErrorKind::InvalidInput, "seek before start"));
-        }
-        self.pos = np as u64;
-        Ok(self.pos)
-    }
-}
-
-const RQ_B: u32 = 1 << 24;
-const RQ_E: u16 = 65535;
-
-fn raptorq_tl(o: &mut Oracle, st: &mut Stash, tl: u64) -> Done {
-    let class = if tl >= (1 << 40) { "C06:raptorq-tl-ge-2^40" } else { "C06:raptorq-tl" };
-    // B and E large enough for <= 255 source blocks, so that only the transfer-length cap can refuse.
-    // Does the real sender accept an object of this transfer length ?  (nothing is read from the source)
-    let r = guarded(AssertUnwindSafe(|| -> Option<(bool, usize, Vec<u8>)> {
-        let oti = hk::make_oti(6, 0, RQ_B, RQ_E, 0, Some((1, 1, 1, 1)), true)?;
-        let mut snd = Sender::new(endpoint(), 11, &oti, &sender::Config::default());
-        let desc = ObjectDesc::create_from_stream(Box::new(Sparse { len: tl, pos: 0 }), "application/octet-stream", &url("huge.bin"), false, TransferConfig { cenc: Cenc::Null, ..Default::default() }).ok()?;
-        if desc.transfer_length != tl {
-            return None;
-        }
-        let accepted = snd.add_object(0, desc).is_ok();
-        // what the packet builder puts on the wire for this object (the object packets of the real session would
-        // need a 1 TB source): an in-band-FTI object packet, the same packet as the generator's `pkt` op
-        let pkt = hk::PktFields {
-            payload: Vec::new(),
-            transfer_length: tl,
-            esi: 0,
-            sbn: 0,
-            toi: 1,
-            fdt_id: None,
-            cenc: Cenc::Null,
-            inband_cenc: false,
-            close_object: false,
-            source_block_length: 0,
-            sender_current_time: false,
-        };
-        Some((accepted, oti.max_transfer_length(), hk::new_alc_pkt(&oti, &0u128, 11, &pkt, false, std::time::UNIX_EPOCH)))
-    }));
-    let (accepted, cap, bytes) = match r? {
-        Some(x) => x,
-        None => {
-            add(st, "sender-range:raptorq-tl:object-not-constructible", 1);
-            return Ok(());
-        }
-    };
-    add(st, &format!("sender-range:raptorq-tl:{:#x}:{}", tl, if accepted { "accepted-by-the-sender" } else { "refused-by-the-sender" }), 1);
-    let wire_tl = rd::decode_packet(&bytes).and_then(|p| p.fti).map(|v| v[0]);
-    if accepted && wire_tl != Some(tl) {
-        add(st, &format!("sender-range:fires:{}", class), 1);
-        o.fail(
-            class,
-            &format!(
-                "Sender::add_object accepts a RaptorQ object of transfer length {} (Oti::max_transfer_length() = {}), but the 40-bit F field of its EXT_FTI carries {:?} in {}",
-                tl,
-                cap,
-                wire_tl,
-                hex(&bytes)
-            ),
-        );
-    } else {
-        st.nontrivial.push(format!("sender-range:raptorq-tl:{}:{}", tl, accepted));
-    }
-    Ok(())
-}
-
 /// `wire session sender-range <case> <params>`
 pub(crate) fn exec(t: &[&str], o: &mut Oracle, st: &mut Stash) -> Option<String> {
     let n = |s: &str, bits: u32| crate::nat_lt(s, bits);
@@ -391,7 +299,6 @@ pub(crate) fn exec(t: &[&str], o: &mut Oracle, st: &mut Stash) -> Option<String>
         ("fdt-start-id", 4) => fdt_start_id(o, st, n(t[1], 32)? as u32, crate::b01(t[2])?, crate::b01(t[3])?),
         ("tsi", 2) => tsi_range(o, st, n(t[1], 64)? as u64),
         ("rs", 4) if t[1] == "5" || t[1] == "129" => rs_range(o, st, n(t[1], 8)? as u8, n(t[2], 32)? as u32, n(t[3], 32)? as u32),
-        ("raptorq-tl", 2) => raptorq_tl(o, st, n(t[1], 64)? as u64),
         _ => return None,
     };
     Some(match done {
@@ -438,10 +345,12 @@ pub fn run(g: &mut G) {
     for (fec, b, parity) in [(5u8, 200u32, 55u32), (5, 200, 56), (5, 255, 1), (5, 300, 4), (129, 65534, 1), (129, 65535, 1), (129, 40000, 30000), (129, 70000, 2)] {
         session(g, "rs", &format!("{} {} {}", fec, b, parity));
     }
+    // RaptorQ transfer length around 2^40 at the hook level only (model correspondence; `C06:fti-ne-rfc-6` of the
+    // `pkt` op where tl < 2^40): the largest RaptorQ object flute's sender accepts is below 2^40 (Z <= 255 blocks
+    // of <= 56403 symbols of <= 65535 bytes), so there is no sender-level case
+    g.ctx.case("sender-range/raptorq-tl-hook");
     for tl in [(1u64 << 40) - 1, 1 << 40, (1 << 40) + 9, (1 << 44) - 1] {
-        session(g, "raptorq-tl", &tl.to_string());
-        // the model sees the bytes of the packet the session op examined
-        let obs = g.step(&format!("wire pkt 6 0 {} {} 0 rq:1:1:1 1 0 11 1 - 0 0 0 0 - 0 {} 0 0 -", RQ_B, RQ_E, tl));
+        let obs = g.step(&format!("wire pkt 6 0 {} {} 0 rq:1:1:1 1 0 11 1 - 0 0 0 0 - 0 {} 0 0 -", 1u32 << 24, 65535, tl));
         if let Some(h) = obs.strip_prefix("ok ") {
             let h = h.to_string();
             g.step(&format!("wire parse {}", h));
